@@ -130,7 +130,9 @@ func randDigits(r *rand.Rand, n int) *big.Int {
 func randCoef(r *rand.Rand) *big.Int {
 	for {
 		var v *big.Int
-		switch r.Intn(10) {
+		switch r.Intn(11) {
+		case 10:
+			v = (&Gen{r: r}).boundaryCoef()
 		case 0, 1:
 			v = coefAtoms[r.Intn(len(coefAtoms))]
 		case 2:
